@@ -166,7 +166,11 @@ class Scheduler(object):
     return lt
 
   def new_thread(self, pythread):
-    lt = LThread(len(self.threads), pythread.name, pythread)
+    name = pythread.name
+    if name.startswith('Thread-'):
+      # threading's automatic names carry a process-wide counter: not reproducible
+      name = 'Thread#%d%s' % (len(self.threads), name[name.index(' '):] if ' ' in name else '')
+    lt = LThread(len(self.threads), name, pythread)
     lt.state = 'ready'
     self.threads.append(lt)
     return lt
